@@ -374,6 +374,17 @@ def dispatcher_checks(chk, want):
                             pool = rng.choice(['AXBYC', 'AXT_', 'T_', 'ABC#'])
                             comp = ((ca, cb), ([1.0] * len(ca), [1.0] * len(cb)),
                                     (''.join(rng.choice(pool) for _ in ca), ''.join(rng.choice(pool) for _ in cb)))
+                            kind = rng.random()
+                            if kind < 0.3:
+                                # the same two sequences the other way round (a word list compared in both directions)
+                                comp = ((list(b), list(a)), (list(c['wB']), list(c['wA'])), (c['proB'], c['proA']))
+                                chk.hist['align_pairs-batch: the reversed pair is in the batch'] += 1
+                            elif kind < 0.6:
+                                # the same class sequences with other prosodic strings / position weights (h and ʔ: one class, different sonority)
+                                comp = ((list(a), list(b)),
+                                        ([rng.choice([1.0, 1.5, 2.0, 0.5]) for _ in a], [rng.choice([1.0, 1.5, 2.0, 0.5]) for _ in b]),
+                                        (''.join(rng.choice(pool) for _ in a), ''.join(rng.choice(pool) for _ in b)))
+                                chk.hist['align_pairs-batch: the same sequences with other prosody / weights are in the batch'] += 1
                             at = rng.randrange(len(seqs) + 1)
                             seqs.insert(at, comp[0]); wts.insert(at, comp[1]); pros.insert(at, comp[2])
                             if at <= pos:
@@ -463,7 +474,7 @@ def dispatcher_checks(chk, want):
         # (the kernel itself is tied to the Lean model by kernel_correspondence)
         m = al.call_real(kn, c)
         if not compare(want, real, m, c):
-            bad.append((entry, mode, c, real, m))
+            bad.append((entry, mode, c, real, m, kn))
         if want == 'score' and dist is not None and real[0] != 'E':
             d = drv.ask('distof|' + line + '|' + f2b(real[-1])).split()
             if d[0] == 'D' and b2f(d[1]) != float(dist) and not (b2f(d[1]) != b2f(d[1]) and dist != dist):
@@ -486,8 +497,11 @@ def dispatcher_checks(chk, want):
             if abs(best - real[-1]) > 1e-9:
                 e = 'returned score %r is not the optimum %r over all alignments' % (real[-1], best)
         elif want == 'score' and real[0] != 'E' and al.KERNELS[kn][3] != 'dialign':
-            rs = al.py_rescore(kn, c, real)
-            if rs != real[-1] and not (rs != rs):
+            try:
+                rs = al.py_rescore(kn, c, real)
+            except (IndexError, KeyError) as ex:
+                rs, e = None, 'the returned columns are not columns of the two inputs, they cannot be re-scored (%s)' % type(ex).__name__
+            if e is None and rs != real[-1] and not (rs != rs):
                 e = 'similarity %r != re-scored %r' % (real[-1], rs)
         if e:
             fails.append((entry, mode, c, e))
@@ -498,6 +512,25 @@ def dispatcher_checks(chk, want):
     for f in fails[:2]:
         chk.violation('%s (%s): %s' % (f[0], f[1], f[3]),
                       {'kind': 'dispatcher', 'want': want, 'entry': f[0], 'mode': f[1], 'case': case_to_json(f[2]), 'why': f[3]})
+    if bad and not fails and want == 'opt':
+        # failing-input search: the exhaustive optimum on the (longer) cases where the tie broke
+        for b in bad[:12]:
+            c, real = b[2], b[3]
+            try:
+                if len(b) < 6:
+                    continue
+                kn = b[5]
+                lim = 5 if al.KERNELS[kn][3] == 'local' else 7
+                if real is None or real[0] == 'E' or al.KERNELS[kn][3] == 'dialign' or len(c['a']) > lim or len(c['b']) > lim or c['scale'] != 1:
+                    continue
+                best = al.brute_best(kn, c)
+            except Exception:  # noqa
+                continue
+            if abs(best - real[-1]) > 1e-9:
+                fails.append((b[0], b[1], c, 'returned score %r is not the optimum %r over all alignments' % (real[-1], best)))
+                chk.violation('%s (%s): %s' % (b[0], b[1], fails[-1][3]),
+                              {'kind': 'dispatcher', 'want': want, 'entry': b[0], 'mode': b[1], 'case': case_to_json(c), 'why': fails[-1][3]})
+                break
     if bad and not fails:
         b = bad[0]
         chk.violation('%s (%s): entry point differs from the routed kernel call / Lean distance; oracle found no failing input' % (b[0], b[1]),
